@@ -186,9 +186,9 @@ def check_state(ctx, kind, nv, nh, na, params, with_model=True, only_region=None
             est[(tuple(A), enc_name)] = got
             ctx.require("SWAP: sum p(s1)p(s2)/Z^2 value(s1,s2) == tr(rho_A^2)", abs(got - want) <= 1e-8 + 1e-7 * abs(want), case,
                         {"estimator_mean": got, "purity": want})
-            ctx.require("SWAP: Renyi-2 entropy >= 0", -math.log(max(got, 1e-300)) >= -1e-9, case, {"estimator_mean": got})
+            ctx.require("SWAP: Renyi-2 entropy >= 0", -math.log(max(got, 1e-300)) >= -1e-6, case, {"estimator_mean": got})
             if kind != "mixed" and len(A) in (0, n):
-                ctx.require("SWAP: zero Renyi entropy for the empty / full region of a pure state", abs(got - 1.0) <= 1e-8, case, {"estimator_mean": got})
+                ctx.require("SWAP: zero Renyi entropy for the empty / full region of a pure state", abs(got - 1.0) <= 1e-6, case, {"estimator_mean": got})
             if Vm is not None:
                 ctx.agree("SWAP.apply on two-row batches (all ordered pairs)", V / M, Vm / M, case, scale=1.0)
             # ---- (b) longer batches: every row is paired with a cyclic neighbour (shift by one, either direction)
@@ -233,7 +233,7 @@ def check_state(ctx, kind, nv, nh, na, params, with_model=True, only_region=None
             gc = [v for (k, e), v in est.items() if list(k) == Ac]
             if ga and gc:
                 ctx.require("SWAP: Renyi entropy of a region equals that of its complement (pure state)",
-                            abs(ga[0] - gc[0]) <= 1e-8, dict(case0, region=A, complement=Ac), {"region": ga[0], "complement": gc[0]})
+                            abs(ga[0] - gc[0]) <= 1e-8 + 1e-6 * abs(ga[0]), dict(case0, region=A, complement=Ac), {"region": ga[0], "complement": gc[0]})
     # all encodings of the same region give the same estimate
     for A in subsets:
         vals = [v for (k, e), v in est.items() if list(k) == A]
